@@ -68,14 +68,14 @@ def family_one_level(f, docs=1, occ=3, slots=2, attrs=1, text=True, noise=False,
         out.append(items)
     return out
 
-def family_root_level(f, docs=3, slots=2, attrs=1, text=True, pool=3):
+def family_root_level(f, docs=3, slots=2, attrs=1, text=True, pool=3, leaf_form=True, root_form=True, names=None, anames=None):
     """K documents whose root <r> directly carries symbolic children/attributes/text: occurrences of the root across documents (extend_struct)"""
     out = []
     for d in range(docs):
         lab = 'd%d_r' % d
-        root = Node('r', label=lab, empty=f.B(lab + '_e'), attrs=f.attrs(lab, attrs))
+        root = Node('r', label=lab, empty=f.B(lab + '_e') if root_form else False, attrs=f.attrs(lab, attrs, anames or APOOL))
         for s in range(slots):
-            root.content.append(f.leaf('%s_c%d' % (lab, s), POOL[:pool], form=True))
+            root.content.append(f.leaf('%s_c%d' % (lab, s), names or POOL[:pool], form=leaf_form))
             if text and s == 0: root.content.append(f.text(lab + '_t'))
         out.append([root])
     return out
@@ -207,3 +207,132 @@ class ExactInference(ParseHarness):
             w['some text'] = w.get('some text') or e.f['text'].variant == 'Some'
         walk(out['root'])
         return w
+
+# ---------------------------------------------------------------------------------------------- C06
+def schema_eq(a, b, path='/'):
+    """formula: two result trees describe the same schema (fields, optionality, multiplicity, text flag, nesting), ignoring order, position and counters"""
+    fa, fb = a.f, b.f
+    conds = [SEQ(fa['name'].val, fb['name'].val), (fa['text'].variant == 'Some') == (fb['text'].variant == 'Some')]
+    ka, kb = fa['children'].l, fb['children'].l
+    if len(ka) != len(kb): return False
+    aa, ab = fa['attributes'].l, fb['attributes'].l
+    if len(aa) != len(ab): return False
+    for x in ka:
+        conds.append(OR(*[AND(x.variant == y.variant, x.p[0].f['standalone'] == y.p[0].f['standalone'], schema_eq(x.p[0], y.p[0])) for y in kb if x.variant == y.variant and x.p[0].f['standalone'] == y.p[0].f['standalone']]))
+    for x in aa:
+        conds.append(OR(*[SEQ(x.p[0].val, y.p[0].val) for y in ab if x.variant == y.variant]))
+    return AND(*conds)
+
+def schema_grows(old, new, path='/'):
+    """[(label, formula)]: new keeps every field of old, never Option->required, never Vec->single, never loses the text flag"""
+    out = []
+    fo, fn = old.f, new.f
+    if fo['text'].variant == 'Some': out.append((path + ': text flag kept', fn['text'].variant == 'Some'))
+    for x in fo['children'].l:
+        n = x.p[0].f['name'].val
+        lab = '%s%s' % (path, n if isinstance(n, str) else '?')
+        cands = []
+        for y in fn['children'].l:
+            ok_flags = (x.variant != 'Optional' or y.variant == 'Optional') and (x.p[0].f['standalone'] or not y.p[0].f['standalone'])
+            if ok_flags: cands.append((SEQ(n, y.p[0].f['name'].val), y))
+        out.append((lab + ': field kept, Option stays Option, Vec stays Vec', OR(*[c for c, _ in cands])))
+        for c, y in cands:
+            for l2, f2 in schema_grows(x.p[0], y.p[0], lab + '/'): out.append((l2, IMPL(c, f2)))
+    for x in fo['attributes'].l:
+        n = x.p[0].val
+        out.append(('%s@%s: attribute kept, Option stays Option' % (path, n if isinstance(n, str) else '?'),
+                    OR(*[SEQ(n, y.p[0].val) for y in fn['attributes'].l if x.variant != 'Optional' or y.variant == 'Optional'])))
+    return out
+
+from .interp import deep
+import itertools as _it
+class ExtendUnion(ParseHarness):
+    """C06: extending = inferring from the union. Base run D1..DK (monotone per step, exact w.r.t. the union oracle), then one alternative
+    supply order / repetition / interleaved element-less document, whose schema must equal the base schema."""
+    name = 'extend-union'
+    alts_kinds = ('perm', 'dup', 'empty', 'err')
+    def alternatives(self):
+        K = len(self.docs); alts = []
+        if 'perm' in self.alts_kinds:
+            for p in _it.permutations(range(K)):
+                if list(p) != list(range(K)): alts.append(('perm', list(p)))
+        if 'dup' in self.alts_kinds:
+            for i in range(K): alts.append(('dup', list(range(K)) + [i]))
+            if K > 1: alts.append(('dup', [0, 0] + list(range(1, K))))
+        if 'empty' in self.alts_kinds:
+            for pos in range(1, K + 1):
+                for kind in ('nothing', 'comment', 'whitespace', 'decl+doctype'): alts.append(('empty:' + kind, list(range(pos)) + [-1 - ['nothing', 'comment', 'whitespace', 'decl+doctype'].index(kind)] + list(range(pos, K))))
+        return alts
+    EMPTY = {-1: [], -2: ['Comment'], -3: ['ws'], -4: ['Decl', 'DocType']}
+    def script_of(self, idx, base):
+        if idx >= 0: return base[idx]
+        out = []
+        for k in self.EMPTY[idx]:
+            out.append(X.Entry(X.ev_text(' \n', True, 'ws')) if k == 'ws' else X.Entry(X.ev_noise(k)))
+        return out
+    def run(self, m):
+        base = self.scripts()
+        root = None; trees = []
+        for i, sc in enumerate(base):
+            r = X.reader(list(sc))
+            res = m.call_fn(m.fns['into_struct'], [r]) if i == 0 else m.call_fn(m.fns['extend_struct'], [r, root])
+            if res.variant != 'Ok': return {'root': None, 'trees': trees, 'alt': None, 'failed_step': i}
+            root = res.p[0]; trees.append(deep(root))
+        alts = self.alternatives()
+        out = {'root': root, 'trees': trees, 'alt': None}
+        if 'err' in self.alts_kinds and len(base) > 1: alts = alts + [('err', None)]
+        if alts:
+            kind, order = alts[m.choose(len(alts))]
+            if kind == 'err':
+                # a reader error at an arbitrary point of the last document: the extension must report Err (no partial result)
+                last = list(base[-1]); cut = m.choose(len(last) + 1)
+                r = X.reader(last[:cut] + [X.Entry(X.ev_err('cut%d' % cut), pos=7)])
+                res = m.call_fn(m.fns['extend_struct'], [r, deep(out['trees'][-2])])
+                out['alt'] = ('err', cut, res); return out
+            r2 = None; ok = True
+            for i, idx in enumerate(order):
+                r = X.reader(list(self.script_of(idx, base)))
+                res = m.call_fn(m.fns['into_struct'], [r]) if i == 0 else m.call_fn(m.fns['extend_struct'], [r, r2])
+                if res.variant != 'Ok': ok = False; break
+                r2 = res.p[0]
+            out['alt'] = (kind, order, r2 if ok else None)
+        return out
+    def assertions(self, m, out):
+        if out['root'] is None: return [('parse/extend of well-formed documents succeeds', False)]
+        conds = X.exactness(out['root'], X.Expect(self.roots()))
+        for i in range(1, len(out['trees'])):
+            conds += [('step %d: %s' % (i, l), f) for l, f in schema_grows(out['trees'][i - 1], out['trees'][i])]
+        if out['alt'] is not None:
+            kind, order, r2 = out['alt']
+            if kind == 'err':
+                conds.append(('failed extension reports the reader error, not a partial result', r2.variant == 'Err' and r2.p[0].variant == 'QuickXmlError'))
+            elif r2 is None: conds.append(('alternative supply %s %r succeeds' % (kind, order), False))
+            else: conds.append(('schema independent of supply %s %r' % (kind, order), schema_eq(out['root'], r2)))
+        return conds
+    def witnesses(self, m, out):
+        w = {}
+        if out.get('alt'): w['alt:' + out['alt'][0].split(':')[0]] = True
+        return w
+    def concretise(self, a):
+        d = ParseHarness.concretise(self, a)
+        return d
+    def native_violation(self, a, replay):
+        am = AssignmentModel(self.consts(), a)
+        docs = [X.serialise(am, d) for d in self.docs]
+        EMPTYDOC = {-1: '', -2: '<!-- c -->', -3: ' \n', -4: '<?xml version="1.0"?><!DOCTYPE r>'}
+        def native_tree(seq):
+            nat = replay.ask({'op': 'render', 'docs': seq, 'options': []})
+            if 'steps' not in nat or len(nat['steps']) != len(seq) or not all(s['ok'] for s in nat['steps']): return None, nat
+            return [rsym_from_tree(tree_from_debug(t)) for t in nat['trees']], nat
+        trees, nat = native_tree(docs)
+        if trees is None: return True, {'docs': docs, 'native': nat, 'why': 'native error on well-formed documents'}
+        failed = []
+        base_out = {'root': trees[-1], 'trees': trees, 'alt': None}
+        failed += [l for l, f in self.assertions(None, base_out) if not am.truth(f)]
+        for kind, order in self.alternatives():
+            seq = [docs[i] if i >= 0 else EMPTYDOC[i] for i in order]
+            t2, nat2 = native_tree(seq)
+            if t2 is None: failed.append('alternative %s %r fails natively: %r' % (kind, seq, nat2.get('steps'))); continue
+            if not am.truth(schema_eq(trees[-1], t2[-1])): failed.append('schema differs for supply %s: %r' % (kind, seq))
+            if len(failed) > 4: break
+        return bool(failed), {'docs': docs, 'failed': failed[:5]}
